@@ -395,9 +395,10 @@ def check_C18(tier):
         obs += E.hits_to_obs("R18.1", R181, h, n)
         rep.floor("%s: instances of round / round_nearest_tie_even" % cfg, n, 4)
         rep.add(cfg, obs)
-    rcl = ["default"] if tier == "quick" else list(F.ALL_CONFIGS)
+    rcl = ["default", "compact"] if tier == "quick" else list(F.ALL_CONFIGS)
     jobs = [{"config": c, "mode": "dbg", "model": "valid", "kind": "fn", "target": "minimal_lexical::rounding::round", "pre": "round", "post": "round"} for c in rcl]
     jobs += [{"config": c, "mode": m, "model": "valid", "kind": "masks", "target": "masks"} for c in rcl for m in ("dbg", "rel")]
+    jobs += [{"config": c, "mode": m, "model": "valid", "kind": "roundcls", "target": fty} for c in rcl for m in ("dbg", "rel") for fty in ("f32", "f64")]
     results = run_jobs(jobs)
     rfx = F.build_many([(c, "dbg") for c in rcl])
     n_mask = sum(1 for r in results for res in r.get("results", []) for o in res["obs"] if o["kind"].startswith("post:mask"))
@@ -416,7 +417,10 @@ def check_C18(tier):
         "(E4) round::<F,_> from every significand with its top bit set and every exponent whose subnormal shift is at most 64: all shifts / mask widths in range and the "
         "post-condition 0 <= exp <= INFINITE_POWER, mant <= HIDDEN_BIT_MASK, exp = INFINITE_POWER => mant = 0. Bit-mask helpers (lower_n_mask, lower_n_halfway, nth_bit) "
         "for all widths 0..=64: on each class of the partition {0},{1},[2,62],{63},{64} the abstract result lies inside the hull of the definition over that class "
-        "(exact on the boundary widths). The nearest-even decision itself is NOT decided.",
+        "(exact on the boundary widths). Boundary classes of round::<F,_> on which interval arithmetic is exact (shift-64 subnormals: tie -> 0, above -> smallest "
+        "subnormal; largest subnormal -> smallest normal; all-ones significand: carry into the next binade; carry out of the largest binade -> infinity; exponent "
+        "already infinite): the result fields EQUAL the IEEE result for every instance whose rounding callback is the generic nearest-even one (no captured "
+        "state) or round_down. The nearest-even decision on the remaining inputs is NOT decided.",
         A_E4 + [A_TOOL, A_TARGET],
     )
 
@@ -448,7 +452,7 @@ def check_C12(tier):
         obs += E.hits_to_obs("R12.2", R2C, h, n)
         rep.floor("%s: carry-returning call sites in bigint" % cfg, n, 10)
         rep.add(cfg, obs)
-    ecl = ["default", "alloc"] if tier == "quick" else F.ALL_CONFIGS
+    ecl = ["default", "compact", "alloc"] if tier == "quick" else F.ALL_CONFIGS
     if os.environ.get("MLX_ONLY_CONFIG"):
         ecl = os.environ["MLX_ONLY_CONFIG"].split(",")
     jobs = []
@@ -672,7 +676,7 @@ FALLIBLE_VEC_OPS = ("try_push", "try_extend", "try_resize")
 
 def check_C13(tier):
     rep = Report("C13", tier)
-    cl = ["default", "alloc"] if tier == "quick" else F.ALL_CONFIGS
+    cl = ["default", "compact", "alloc"] if tier == "quick" else F.ALL_CONFIGS
     if os.environ.get("MLX_ONLY_CONFIG"):
         cl = os.environ["MLX_ONLY_CONFIG"].split(",")
     modes = [("dbg", "arbitrary"), ("rel", "arbitrary")]
